@@ -7,7 +7,7 @@
      FieldFound / SkippedFound (skipped fields processed) / RepeatedStays / MapKey / MapValue
      (map reads its value element) / IgnoredNonCritical / IgnoredCriticalByFlag / IgnoredInMap /
      RejectCritical (unknown, repeated or out-of-order critical) / Overrun (element overruns its
-     parent) / BadUintWidth / BadName / BadNested / Done / DoneDangling.
+     parent) / CutNumber (Type or Length number truncated at the end of the level) / BadUintWidth / BadName / BadNested / Done / DoneDangling.
    The instantiating module defines Init (which cases are decoded) and Spec:
      TlvModelC08 (encodings of legal values and their edits), TlvModelC07 (packet alphabets).   *)
 EXTENDS TlvModel
@@ -51,6 +51,9 @@ RejectCritical        == /\ st.status = "run"
 Overrun               == /\ st.status = "run"
                          /\ Take("Overrun")
                          /\ UNCHANGED c
+CutNumber             == /\ st.status = "run"
+                         /\ Take("CutNumber")
+                         /\ UNCHANGED c
 BadUintWidth          == /\ st.status = "run"
                          /\ Take("BadUintWidth")
                          /\ UNCHANGED c
@@ -69,7 +72,7 @@ DoneDangling          == /\ st.status = "run"
 
 Next == \/ FieldFound \/ SkippedFound \/ RepeatedStays \/ MapKey \/ MapValue
         \/ IgnoredNonCritical \/ IgnoredCriticalByFlag \/ IgnoredInMap
-        \/ RejectCritical \/ Overrun \/ BadUintWidth \/ BadName \/ BadNested
+        \/ RejectCritical \/ Overrun \/ CutNumber \/ BadUintWidth \/ BadName \/ BadNested
         \/ Done \/ DoneDangling
 Terminal == st.status # "run"
 
